@@ -4,6 +4,16 @@ from . import native_ode, native_net, native_renorm, native_cfg, native_ids, nat
 
 ODE_UNIT = ("contracts.ode", "prepare_ode_content")
 
+
+def _both(f, g):
+    """two bounded oracles run one after the other; cases and violations are added up"""
+    def oracle(tier, seed):
+        a, b = f(tier, seed), g(tier, seed)
+        return {"cases": a.get("cases", 0) + b.get("cases", 0), "distinct": a.get("distinct", a.get("cases", 0)) + b.get("distinct", b.get("cases", 0)),
+                "violations": list(a.get("violations", [])) + list(b.get("violations", [])), "samples": list(a.get("samples", []))[:3] + list(b.get("samples", []))[:2],
+                "bound": a.get("bound", "") + " | " + b.get("bound", ""), "rule": a.get("rule", "") + " | " + b.get("rule", "")}
+    return oracle
+
 _ode_trusted = [
     "assumed contract of TemplateLoader._assign_rates (element i is `if (win_i) sym[i] = rate_i;`), proved separately for C06",
     "assumed contract of list.index on netinfo.species: Network.species is duplicate free w.r.t. Species.__eq__ and contains every reactant, product and modifier species (C09/C14)",
@@ -76,7 +86,7 @@ PROPERTIES = {
         "level": "proof",
         "units": [ODE_UNIT, ("contracts.cfgparse", "init_option_parsing"), ("contracts.cfgparse", "render_plumbing")],
         "contract_files": ["ode.py", "cfgparse.py"],
-        "oracle": native_ode.oracle_for("C13"),
+        "oracle": _both(native_ode.oracle_for("C13"), native_cfg.oracle_c13_cli),
         "trusted_base": _ode_trusted,
     },
     "C16": {
